@@ -169,8 +169,8 @@ Proof.
   - rewrite !wrapu32_id31; [reflexivity|lia|lia].
 Qed.
 
-Lemma new_inner_ok c maxrt it : valid_cfg c -> item_ok c it -> 0 <= maxrt ->
-  exists i, new_inner true true it = Some i /\ inner_ok (ck c) maxrt i it.
+Lemma new_inner_ok c maxrt t it : valid_cfg c -> item_ok c it -> 0 <= maxrt ->
+  exists i, new_inner true true t it = Some i /\ inner_ok (ck c) maxrt i it /\ isync i = t.
 Proof.
   intros V H Hm. unfold new_inner. rewrite (new_lim_ok c it V H).
   destruct (strategy_eqb (istr it) SCount) eqn:S; simpl.
@@ -234,8 +234,8 @@ Proof.
 Qed.
 
 (* remoteWrapper.Sync under the limits [c]; the wrapper may have been kept under earlier limits [c0] *)
-Lemma rw_sync_ok c0 c maxrt w it0 : valid_cfg c -> ck c0 = ck c -> 0 <= maxrt -> wrap_ok c0 maxrt w ->
-  exists w', rw_sync true true c w it0 = Some w' /\
+Lemma rw_sync_ok c0 c maxrt t w it0 : valid_cfg c -> ck c0 = ck c -> 0 <= maxrt -> wrap_ok c0 maxrt w ->
+  exists w', rw_sync true true c t w it0 = Some w' /\
     match sanitize c it0 with
     | None => w' = w
     | Some it => wrap_ok c maxrt w' /\ rcfg w' = Some it /\ rin w' <> None
@@ -251,8 +251,8 @@ Proof.
     unfold wrap_ok in *. destruct (rin w) as [i|]; [|congruence].
     destruct Hw as (it' & R' & _ & Hi). rewrite R in R'. inversion R'; subst it'.
     split; [|split; [reflexivity|discriminate]]. exists it. rewrite <- K0. auto. }
-  destruct (new_inner_ok c maxrt it V Hit Hm) as (i' & Hn & Hi').
-  assert (Rec : exists w', match new_inner true true it with
+  destruct (new_inner_ok c maxrt t it V Hit Hm) as (i' & Hn & Hi' & _).
+  assert (Rec : exists w', match new_inner true true t it with
                            | Some i => Some {| rin := Some i; rcfg := Some it |}
                            | None => None end = Some w' /\ wrap_ok c maxrt w' /\ rcfg w' = Some it /\ rin w' <> None).
   { rewrite Hn. eexists. split; [reflexivity|]. unfold wrap_ok. simpl.
@@ -336,7 +336,7 @@ Proof.
   intros Hm P G (I1 & V & Ip & I2 & I3). unfold apply_sync.
   assert (Hw : wrap_ok (scfg s) maxrt (match rem s with Some w => w | None => empty_rw end)).
   { destruct (rem s); [assumption|]. unfold wrap_ok, empty_rw. reflexivity. }
-  destruct (rw_sync_ok (scfg s) (scfg s) maxrt _ it V eq_refl Hm Hw) as (w' & E & X). rewrite E.
+  destruct (rw_sync_ok (scfg s) (scfg s) maxrt (now_sec s) _ it V eq_refl Hm Hw) as (w' & E & X). rewrite E.
   unfold Inv, set_rem. simpl. repeat split; auto; try (intros Y; congruence).
   destruct (sanitize (scfg s) it); [tauto|]. subst w'. exact Hw.
 Qed.
@@ -371,7 +371,7 @@ Proof.
     destruct (rin w) as [i|] eqn:Ri.
     + destruct I3 as (it & Rc & Hit & Hi). rewrite Rc.
       assert (Hw : wrap_ok (scfg s) maxrt w) by (unfold wrap_ok; rewrite Ri; exists it; auto).
-      destruct (rw_sync_ok (scfg s) c' maxrt w it V' (eq_sym K) Hm Hw) as (w' & E & X). rewrite E.
+      destruct (rw_sync_ok (scfg s) c' maxrt (now_sec s) w it V' (eq_sym K) Hm Hw) as (w' & E & X). rewrite E.
       destruct (sanitize_same_kind (scfg s) c' it (eq_sym K) Hit) as (it' & Sa). rewrite Sa in X.
       unfold Inv, set_cfg. simpl. repeat split; auto; try (intros Y; congruence). tauto.
     + unfold Inv, set_cfg. simpl. repeat split; auto; try (intros Y; congruence).
@@ -379,14 +379,56 @@ Proof.
   - unfold Inv, set_cfg. simpl. repeat split; auto.
 Qed.
 
-Lemma step_inv st maxrt s e : 0 <= maxrt -> ev_ok e ->
-  Inv maxrt s -> Inv (next_rt maxrt e) (step true true true st s e).
+(* the clock of the specification, read off a state *)
+Definition clk_of (s : state) (q : Z) : clk := {| k_now := snow s; k_rounds := srounds s; k_quiet := q |}.
+
+Lemma set_sync_ok k m i it t : inner_ok k m i it -> inner_ok k m (set_sync i t) it.
+Proof. unfold inner_ok, set_sync. simpl. auto. Qed.
+
+Lemma Inv_rounds maxrt s n : Inv maxrt s -> Inv maxrt (set_rounds s n).
+Proof. unfold Inv, set_rounds. simpl. auto. Qed.
+
+Lemma worker_target_some st s idle w i : worker_target st s idle = Some (w, i) ->
+  cs st = CSOk /\ rem s = Some w /\ rin w = Some i /\ has_counter i = true /\
+  (idle = false \/ 2 < now_sec s - isync i).
+Proof.
+  unfold worker_target. destruct (cs st); try discriminate.
+  destruct (rem s) as [w0|]; [|discriminate]. destruct (rin w0) as [i0|] eqn:Ri; [|discriminate].
+  destruct (has_counter i0 && (negb idle || (2 <? now_sec s - isync i0))) eqn:E; [|discriminate].
+  intros H. inversion H; subst. apply andb_true_iff in E. destruct E as [E1 E2].
+  repeat split; auto. apply orb_true_iff in E2. destruct E2 as [E2|E2]; [left; destruct idle; auto; discriminate|right; lia].
+Qed.
+
+Lemma step_inv st maxrt s e q : 0 <= maxrt -> ev_ok e ->
+  Inv maxrt s -> Inv (next_rt maxrt (clk_of s q) e) (step true true true st s e).
 Proof.
   intros Hm Ev I. pose proof I as (I1 & V & Ip & I2 & I3).
   unfold step. rewrite I1.
-  destruct e as [it| |r rt|ok| |ms|x|k x a b g h| |]; simpl next_rt; try assumption.
+  destruct e as [it|idle sv mx rate|mx rate| |r rt|ok| |ms|x|k x a b g h| |]; simpl next_rt; try assumption.
   - destruct (present s) eqn:P; [|assumption]. simpl.
     destruct (enable_global (sstr s)) eqn:G; [|assumption]. apply apply_sync_inv; auto.
+  - (* a worker round *)
+    pose proof (zmax_ge maxrt (worker_rt (clk_of s q))) as [Z1 Z2].
+    assert (I1' : Inv (zmax maxrt (worker_rt (clk_of s q))) (set_rounds s (srounds s + 1)))
+      by (apply Inv_rounds; apply Inv_mono with (m := maxrt); assumption).
+    destruct (worker_target st s idle) as [[w i]|] eqn:T; [|exact I1'].
+    destruct (worker_target_some st s idle w i T) as (_ & R & Ri & _).
+    rewrite R in I3. unfold wrap_ok in I3. rewrite Ri in I3. destruct I3 as (it & Rc & Hit & Hi).
+    destruct (set_limit_ok (scfg s) maxrt i it (reply_of sv mx rate) (request_time s) V Hit Hi) as (i' & E & Hi').
+    destruct sv; try exact I1'; rewrite E;
+      (unfold Inv, set_rem, set_rounds; simpl; repeat split; auto;
+       try (intros X; specialize (I2 X); congruence); try (intros X; specialize (Ip X); congruence);
+       unfold wrap_ok; simpl; exists it; repeat split; auto; apply set_sync_ok; exact Hi').
+  - (* a watchdog tick *)
+    destruct (rem s) as [w|] eqn:R; [|assumption].
+    destruct (rin w) as [i|] eqn:Ri; [|assumption].
+    destruct (has_counter i && (4 <? now_sec s - isync i)); [|assumption].
+    unfold wrap_ok in I3. rewrite Ri in I3. destruct I3 as (it & Rc & Hit & Hi).
+    destruct (set_limit_ok (scfg s) maxrt i it (RErr mx rate) 0 V Hit Hi) as (i' & E & Hi'). rewrite E.
+    unfold Inv, set_rem. simpl. repeat split; auto; try (intros X; specialize (I2 X); discriminate);
+      try (intros X; specialize (Ip X); discriminate).
+    unfold wrap_ok. simpl. exists it. repeat split; auto.
+    apply inner_ok_mono with (m := zmax maxrt 0); [|exact Hi']. unfold zmax. destruct (maxrt <? 0) eqn:X; lia.
   - destruct (present s) eqn:P; [|assumption]. simpl.
     destruct (strategy_eqb (sstr s) SCount) eqn:G; [|assumption].
     apply strategy_eqb_eq in G. apply apply_sync_inv; auto. rewrite G. reflexivity.
@@ -440,7 +482,8 @@ Lemma observe_shape st maxrt s : Inv maxrt s -> present s = true ->
   observe true st s =
   let l := if elig st s then remote_lim s else Some (local_lim (scfg s)) in
   {| o_evp := false; o_sel := if elig st s then SelRemote else SelLocal; o_lim := l;
-     o_adm := admitted (scfg s) l; o_ready := is_ready st s; o_rem := observe_rem s |}.
+     o_adm := admitted (scfg s) l; o_ready := is_ready st s; o_rem := observe_rem s;
+     o_sync := observe_sync s; o_sent := false |}.
 Proof.
   intros I P. pose proof I as (I1 & _). unfold observe. rewrite I1.
   rewrite (select_elig st maxrt s I P). unfold remote_lim.
@@ -449,9 +492,10 @@ Qed.
 
 Lemma observe_absent st maxrt s : Inv maxrt s -> present s = false ->
   observe true st s =
-  {| o_evp := false; o_sel := SelDefault; o_lim := Some LInf; o_adm := -1; o_ready := is_ready st s; o_rem := None |}.
+  {| o_evp := false; o_sel := SelDefault; o_lim := Some LInf; o_adm := -1; o_ready := is_ready st s; o_rem := None;
+     o_sync := -1; o_sent := false |}.
 Proof.
-  intros (I1 & _ & Ip & _) P. unfold observe, select, observe_rem. rewrite I1, P, (Ip P). reflexivity.
+  intros (I1 & _ & Ip & _) P. unfold observe, select, observe_rem, observe_sync. rewrite I1, P, (Ip P). reflexivity.
 Qed.
 
 Lemma eligible_observe st maxrt s : Inv maxrt s -> present s = true ->
@@ -614,482 +658,463 @@ Proof.
   - exists i. repeat split; auto. destruct (H10 eq_refl) as [-> ->]. exact H7.
 Qed.
 
-(* the remote part of the observation after a count reply *)
-Lemma count_step st s w i i' r rt : crashed s = false ->
-  rem s = Some w -> rin w = Some i -> set_limit true (scfg s) i r rt = Some i' ->
-  observe_rem (step true true true st s (ECount r rt)) =
-  Some {| r_inner := Some (iw i'); r_lim := Some (il i'); r_unavail := iun i'; r_over := iover i'; r_cfg := rcfg w |}.
+(* ---------- the counter of the schema and the clock of the specification ---------- *)
+Definition counter_of (s : state) : option inner :=
+  match rem s with
+  | Some w => match rin w with Some i => if has_counter i then Some i else None | None => None end
+  | None => None
+  end.
+
+(* the specification's clock agrees with the state, and the silence it measures is not longer than the
+   one the watchdog of the counter sees: lastSync <= the time of the last noisy event *)
+Definition Ctx (k : clk) (s : state) : Prop :=
+  snow s = k_now k /\ srounds s = k_rounds k /\ 0 <= k_quiet k <= k_now k /\
+  forall i, counter_of s = Some i -> isync i <= k_quiet k / 1000.
+
+Lemma has_counter_kind i : has_counter i = true <-> (iw i = WMI \/ iw i = WTB).
+Proof. unfold has_counter. destruct (iw i); split; intros H; auto; try discriminate; destruct H; discriminate. Qed.
+
+Lemma has_counter_obs_eq st maxrt s : Inv maxrt s ->
+  has_counter_obs (observe true st s) = match counter_of s with Some _ => true | None => false end.
 Proof.
-  intros I1 R Ri E. unfold step. rewrite I1, R, Ri, E. unfold observe_rem, set_rem. simpl. reflexivity.
+  intros I. unfold has_counter_obs, inner_is, rem_of. destruct (observe_rem_eq st maxrt s I) as [-> _].
+  unfold observe_rem, counter_of, has_counter. destruct (rem s) as [w|]; [|reflexivity].
+  destruct (rin w) as [i|]; [|reflexivity]. simpl. destruct (iw i); reflexivity.
 Qed.
 
-Lemma failing_holds st maxrt s e : 0 <= maxrt -> ev_ok e -> Inv maxrt s ->
-  failing_ok (scfg s) maxrt (observe true st s) e (observe true st (step true true true st s e)) = true.
+Lemma new_inner_sync fx fy t it i : new_inner fx fy t it = Some i -> isync i = t.
 Proof.
-  intros Hm Ev I. pose proof (step_inv st maxrt s e Hm Ev I) as I'.
-  unfold failing_ok, rem_of, inner_is, rlim_is, rcfg_det, rem_of.
-  destruct (observe_rem_eq st _ _ I') as [-> ->].
-  destruct (observe_rem_eq st _ _ I) as [-> _].
-  destruct e as [| |[mx rate| |] rt| | | | | | |]; try reflexivity.
-  pose proof I as (I1 & V & Ip & I2 & I3).
-  set (Q := observe_rem (step true true true st s (ECount (RErr mx rate) rt))).
-  unfold observe_rem. destruct (rem s) as [w|] eqn:R; [|reflexivity].
-  unfold wrap_ok in I3. destruct (rin w) as [i|] eqn:Ri; [|reflexivity]. simpl.
-  destruct I3 as (it & Rc & Hit & Hi). rewrite Rc.
+  unfold new_inner. destruct (negb (strategy_eqb (istr it) SCount)); [intros H; inversion H; reflexivity|].
+  destruct (idet it); intros H; inversion H; reflexivity.
+Qed.
+
+Lemma inner_resize_sync fx fy i n b : isync (inner_resize fx fy i n b) = isync i /\ iw (inner_resize fx fy i n b) = iw i.
+Proof. unfold inner_resize. destruct (iw i) eqn:W; simpl; auto. Qed.
+
+Lemma set_limit_keep fx c i r rt i' : set_limit fx c i r rt = Some i' -> isync i' = isync i /\ iw i' = iw i.
+Proof.
+  unfold set_limit. destruct (iw i) eqn:W.
+  - intros H; inversion H; subst; auto.
+  - destruct ((0 <? rt) && (rt <=? ilast i)); [intros H; inversion H; subst; auto|].
+    destruct r as [mx rate| |[|] limit]; try (intros H; inversion H; subst; simpl; auto; fail).
+    destruct (iun i); [intros H; inversion H; subst; auto|]. destruct (ck c); intros H; inversion H; subst; simpl; auto.
+  - destruct r as [mx rate| |[|] limit]; try (intros H; inversion H; subst; simpl; auto; fail).
+    + destruct (iun i); [intros H; inversion H; subst; auto|]. destruct (ck c); intros H; inversion H; subst; simpl; auto.
+    + destruct (iun i); intros H; inversion H; subst; simpl; auto.
+Qed.
+
+(* Sync either keeps the limiter (and its counter) or builds a new one whose counter starts now *)
+Lemma rw_sync_sync fx fy c t w it0 w' i' : rw_sync fx fy c t w it0 = Some w' -> rin w' = Some i' ->
+  isync i' = t \/ (exists i, rin w = Some i /\ isync i' = isync i /\ iw i' = iw i).
+Proof.
+  unfold rw_sync. destruct (if fx then sanitize c it0 else Some it0) as [it|].
+  2:{ intros H R. inversion H; subst. right. exists i'. auto. }
+  destruct (rcfg_is w it). { intros H R. inversion H; subst. right. exists i'. auto. }
+  assert (Rec : match new_inner fx fy t it with
+                | Some i => Some {| rin := Some i; rcfg := Some it |} | None => None end = Some w' ->
+                rin w' = Some i' -> isync i' = t).
+  { destruct (new_inner fx fy t it) as [i|] eqn:N; [|discriminate]. intros H R. inversion H; subst. simpl in R.
+    inversion R; subst. eapply new_inner_sync; eauto. }
+  destruct (rin w) as [i|] eqn:Ri; [|intros H R; left; auto].
+  destruct (negb (ltype_eqb (lim_type (il i)) (det_type (idet it))) || negb (strategy_eqb (rcfg_strategy w) (istr it)));
+    [intros H R; left; auto|].
+  destruct (idet it); destruct (ck c); try (intros H R; left; auto; fail); try discriminate;
+    intros H R; inversion H; subst; simpl in R; inversion R; subst; right; exists i;
+    (split; [reflexivity|apply inner_resize_sync]).
+Qed.
+
+(* the periodic config sync of a global-count schema never replaces an existing counter *)
+Lemma cfgsync_keeps maxrt s i : Inv maxrt s -> counter_of s = Some i ->
+  exists w', rw_sync true true (scfg s) (now_sec s) (match rem s with Some w => w | None => empty_rw end)
+                     {| idet := global_detail (scfg s); istr := SCount |} = Some w' /\
+             exists i', rin w' = Some i' /\ isync i' = isync i /\ iw i' = iw i.
+Proof.
+  intros (I1 & V & Ip & I2 & I3) C. unfold counter_of in C.
+  destruct (rem s) as [w|] eqn:R; [|discriminate]. destruct (rin w) as [i0|] eqn:Ri; [|discriminate].
+  destruct (has_counter i0) eqn:H; [|discriminate]. inversion C; subst i0; clear C.
+  unfold wrap_ok in I3. rewrite Ri in I3. destruct I3 as (it & Rc & Hit & Hi).
+  unfold rw_sync.
+  assert (Sa : sanitize (scfg s) {| idet := global_detail (scfg s); istr := SCount |}
+               = Some {| idet := global_detail (scfg s); istr := SCount |}).
+  { unfold sanitize, global_detail, valid_cfg in *. destruct (ck (scfg s)); simpl; rewrite !clamp_id by lia; reflexivity. }
+  rewrite Sa. destruct (rcfg_is w _). { eexists. split; [reflexivity|]. exists i. auto. }
+  rewrite Ri. unfold inner_ok in Hi. unfold rcfg_strategy. rewrite Rc.
+  apply has_counter_kind in H. unfold global_detail.
+  destruct H as [W|W]; rewrite W in Hi.
+  - destruct Hi as (S & K & m & n & D & _ & _ & L & _). rewrite K, L, S. simpl.
+    eexists. split; [reflexivity|]. eexists. split; [reflexivity|]. apply inner_resize_sync.
+  - destruct Hi as (S & K & _ & q & b & q' & b' & D & _ & _ & L & _). rewrite K, L, S. simpl.
+    eexists. split; [reflexivity|]. eexists. split; [reflexivity|]. apply inner_resize_sync.
+Qed.
+
+(* ---------- what a step does to presence, schema, strategy and clock ---------- *)
+Lemma sync_schema_proj s c' x :
+  let s' := sync_schema true true true s c' x in
+  present s' = true /\ scfg s' = c' /\ sstr s' = x /\ hage s' = hage s /\ snow s' = snow s /\ srounds s' = srounds s.
+Proof.
+  unfold sync_schema. destruct (present s) eqn:P; simpl; [|repeat split; auto].
+  destruct (kind_eqb (ck c') (ck (scfg s)) && config_eqb c' (scfg s) && strategy_eqb x (sstr s)) eqn:E.
+  - apply andb_true_iff in E. destruct E as [E1 E2]. apply config_eqb_eq in E1. apply strategy_eqb_eq in E2. subst. repeat split; auto.
+  - destruct (kind_eqb _ _); simpl; [|repeat split; auto]. destruct (enable_global x); simpl; [|repeat split; auto].
+    destruct (rem s) as [w|]; [|repeat split; auto]. destruct (rin w); [|repeat split; auto]. destruct (rcfg w); [|repeat split; auto].
+    destruct (rw_sync _ _ _ _ _ _); repeat split; auto.
+Qed.
+
+Definition next_now (n : Z) (e : ev) : Z := match e with EElapse ms => n + (if ms <? 0 then 0 else ms) | _ => n end.
+Definition next_rounds (n : Z) (e : ev) : Z := match e with EWorker _ _ _ _ => n + 1 | _ => n end.
+
+Lemma step_proj st s e : crashed s = false ->
+  let s' := step true true true st s e in
+  present s' = next_present (present s) e /\ scfg s' = next_cfg (scfg s) e /\ sstr s' = next_str (sstr s) e /\
+  snow s' = next_now (snow s) e /\ srounds s' = next_rounds (srounds s) e.
+Proof.
+  intros Cr. unfold step. rewrite Cr.
+  destruct e as [it|idle sv mx rate|mx rate| |r rt|ok| |ms|x|k x a b g h| |]; simpl.
+  - destruct (present s && enable_global (sstr s)); [|repeat split; auto]. unfold apply_sync. destruct (rw_sync _ _ _ _ _ _); repeat split; auto.
+  - destruct (worker_target st s idle) as [[w i]|]; [|repeat split; auto].
+    destruct sv; try (repeat split; auto; fail); destruct (set_limit _ _ _ _ _); repeat split; auto.
+  - destruct (rem s) as [w|]; [|repeat split; auto]. destruct (rin w) as [i|]; [|repeat split; auto].
+    destruct (has_counter i && _); [|repeat split; auto]. destruct (set_limit _ _ _ _ _); repeat split; auto.
+  - destruct (present s && strategy_eqb (sstr s) SCount); [|repeat split; auto]. unfold apply_sync. destruct (rw_sync _ _ _ _ _ _); repeat split; auto.
+  - destruct (rem s) as [w|]; [|repeat split; auto]. destruct (rin w); [|repeat split; auto]. destruct (set_limit _ _ _ _ _); repeat split; auto.
+  - repeat split; auto.
+  - repeat split; auto.
+  - repeat split; auto.
+  - destruct (sync_schema_proj s (scfg s) x) as (A & B & C & _ & D & E). repeat split; auto.
+  - destruct (sync_schema_proj s {| ck := k; l1 := a; l2 := b; g1 := g; g2 := h |} x) as (A & B & C & _ & D & E). repeat split; auto.
+  - destruct (present s) eqn:P; simpl; repeat split; auto.
+  - destruct (present s && enable_global (sstr s)); [|repeat split; auto]. destruct (rem s); repeat split; auto.
+Qed.
+
+(* the counter after a step: the old one (same lastSync), or one whose lastSync is "now" — and then the
+   specification's silence starts anew as well (the event is noisy) *)
+Definition stamp_cond (st : static) (s : state) (e : ev) : Prop :=
+  match e with
+  | EQuota _ | EStrategy _ | ESchema _ _ _ _ _ _ | EDelete | EEnable => True
+  | ECfgSync => counter_of s = None
+  | EWorker _ sv _ _ => sent_in st s e = true /\ is_omit sv = false
+  | _ => False
+  end.
+
+Arguments stamp_cond : simpl never.
+Arguments sent_in : simpl never.
+
+Lemma counter_of_set_rem s w' :
+  counter_of (set_rem s (Some w')) = match rin w' with Some i => if has_counter i then Some i else None | None => None end.
+Proof. reflexivity. Qed.
+
+Lemma counter_via_sync s t w it0 w' i' :
+  rw_sync true true (scfg s) t (match rem s with Some w => w | None => empty_rw end) it0 = Some w' ->
+  rem s = w -> rin w' = Some i' -> has_counter i' = true ->
+  isync i' = t \/ (exists i, counter_of s = Some i /\ isync i' = isync i).
+Proof.
+  intros E _ R H. destruct (rw_sync_sync _ _ _ _ _ _ _ _ E R) as [X|(i & Ri & X & W)]; [left; exact X|].
+  right. exists i. split; [|exact X]. unfold counter_of. destruct (rem s) as [w0|]; [|discriminate].
+  rewrite Ri. unfold has_counter in *. rewrite <- W. rewrite H. reflexivity.
+Qed.
+
+Lemma sync_schema_counter s c' x i' : counter_of (sync_schema true true true s c' x) = Some i' ->
+  isync i' = now_sec s \/ exists i, counter_of s = Some i /\ isync i' = isync i.
+Proof.
+  unfold sync_schema. destruct (present s); simpl; [|unfold counter_of; simpl; discriminate].
+  destruct (_ && _ && _); [intros C; right; exists i'; auto|].
+  destruct (kind_eqb _ _); simpl; [|unfold counter_of; simpl; discriminate].
+  destruct (enable_global x); simpl; [|unfold counter_of; simpl; discriminate].
+  destruct (rem s) as [w|] eqn:R; [|unfold counter_of; simpl; discriminate].
+  assert (Same : counter_of (set_cfg s c' x (Some w)) = Some i' ->
+                 isync i' = now_sec s \/ exists i, counter_of s = Some i /\ isync i' = isync i).
+  { intros C. right. exists i'. split; [|reflexivity]. unfold counter_of in *. simpl in C. rewrite R. exact C. }
+  destruct (rin w) as [i|] eqn:Ri; [|exact Same].
+  destruct (rcfg w) as [it|]; [|exact Same].
+  destruct (rw_sync _ _ _ _ _ _) as [w'|] eqn:E.
+  - unfold counter_of at 1. simpl. destruct (rin w') as [j|] eqn:Rj; [|discriminate].
+    destruct (has_counter j) eqn:H; [|discriminate]. intros C. inversion C; subst j.
+    destruct (rw_sync_sync _ _ _ _ _ _ _ _ E Rj) as [X|(i0 & Ri0 & X & W)]; [left; exact X|].
+    right. exists i0. split; [|exact X]. unfold counter_of. rewrite R, Ri0. unfold has_counter in *. rewrite <- W, H. reflexivity.
+  - intros C. apply Same. unfold counter_of in *. simpl in *. exact C.
+Qed.
+
+Lemma counter_step st maxrt s e i' : Inv maxrt s -> ev_ok e ->
+  counter_of (step true true true st s e) = Some i' ->
+  (exists i, counter_of s = Some i /\ isync i' = isync i) \/ (isync i' = now_sec s /\ stamp_cond st s e).
+Proof.
+  intros I Ev. pose proof I as (I1 & V & Ip & I2 & I3). unfold step. rewrite I1.
+  assert (Keep : forall s', rem s' = rem s -> counter_of s' = Some i' ->
+                 (exists i, counter_of s = Some i /\ isync i' = isync i) \/ (isync i' = now_sec s /\ stamp_cond st s e)).
+  { intros s' R C. left. exists i'. split; [|reflexivity]. unfold counter_of in *. rewrite <- R. exact C. }
+  destruct e as [it|idle sv mx rate|mx rate| |r rt|ok| |ms|x|k x a b g h| |]; simpl.
+  - (* quota *)
+    destruct (present s && enable_global (sstr s)); [|apply Keep; reflexivity].
+    unfold apply_sync. destruct (rw_sync _ _ _ _ _ _) as [w'|] eqn:E; [|apply Keep; reflexivity].
+    rewrite counter_of_set_rem. destruct (rin w') as [j|] eqn:R; [|discriminate].
+    destruct (has_counter j) eqn:H; [|discriminate]. intros C. inversion C; subst j.
+    destruct (counter_via_sync s _ _ it w' i' E eq_refl R H) as [X|X]; [right; split; [exact X|exact Logic.I]|left; exact X].
+  - (* worker round *)
+    destruct (worker_target st s idle) as [[w i]|] eqn:T; [|apply Keep; reflexivity].
+    destruct (worker_target_some st s idle w i T) as (Cs & R & Ri & H & _).
+    assert (Sent : sent_in st s (EWorker idle sv mx rate) = true) by (unfold sent_in; rewrite I1, T; reflexivity).
+    assert (Del : forall r j, is_omit sv = false ->
+              set_limit true (scfg s) i r (request_time s) = Some j ->
+              counter_of (set_rem (set_rounds s (srounds s + 1)) (Some {| rin := Some (set_sync j (now_sec s)); rcfg := rcfg w |})) = Some i' ->
+              (exists i0, counter_of s = Some i0 /\ isync i' = isync i0) \/ (isync i' = now_sec s /\ stamp_cond st s (EWorker idle sv mx rate))).
+    { intros r j Om E C. unfold counter_of, set_rem in C. simpl in C.
+      destruct (set_limit_keep _ _ _ _ _ _ E) as [_ W]. unfold has_counter in *. simpl in C. rewrite W in C.
+      destruct (iw i); try discriminate; inversion C; subst; simpl; right; (split; [reflexivity|unfold stamp_cond; auto]). }
+    destruct sv; try (apply Keep; reflexivity);
+      (destruct (set_limit _ _ _ _ _) as [j|] eqn:E; [eapply Del; [reflexivity|exact E]|apply Keep; reflexivity]).
+  - (* watchdog *)
+    destruct (rem s) as [w|] eqn:R; [|apply Keep; auto].
+    destruct (rin w) as [i|] eqn:Ri; [|apply Keep; auto].
+    destruct (has_counter i && _); [|apply Keep; auto].
+    destruct (set_limit _ _ _ _ _) as [j|] eqn:E; [|apply Keep; auto].
+    destruct (set_limit_keep _ _ _ _ _ _ E) as [Sy W].
+    unfold set_rem, counter_of at 1. simpl. unfold has_counter. rewrite W. intros C. left. exists i.
+    unfold counter_of. rewrite R, Ri. unfold has_counter. destruct (iw i); try discriminate; inversion C; subst; auto.
+  - (* config sync *)
+    destruct (present s && strategy_eqb (sstr s) SCount); [|apply Keep; reflexivity].
+    unfold apply_sync. destruct (counter_of s) as [i|] eqn:Cn.
+    + destruct (cfgsync_keeps maxrt s i I Cn) as (w' & E & j & Rj & Sy & W). rewrite E.
+      rewrite counter_of_set_rem, Rj. destruct (has_counter j); [|discriminate]. intros C. inversion C; subst j.
+      left. exists i. auto.
+    + destruct (rw_sync _ _ _ _ _ _) as [w'|] eqn:E; [|intros C; unfold crash, counter_of in C; simpl in C; unfold counter_of in Cn; rewrite Cn in C; discriminate].
+      rewrite counter_of_set_rem. destruct (rin w') as [j|] eqn:R; [|discriminate].
+      destruct (has_counter j) eqn:H; [|discriminate]. intros C. inversion C; subst j.
+      destruct (counter_via_sync s _ _ _ w' i' E eq_refl R H) as [X|(i & X & _)]; [right; split; [exact X|unfold stamp_cond; exact Cn]|].
+      rewrite Cn in X. discriminate.
+  - (* count reply *)
+    destruct (rem s) as [w|] eqn:R; [|apply Keep; auto].
+    destruct (rin w) as [i|] eqn:Ri; [|apply Keep; auto].
+    destruct (set_limit _ _ _ _ _) as [j|] eqn:E; [|apply Keep; auto].
+    destruct (set_limit_keep _ _ _ _ _ _ E) as [Sy W].
+    unfold set_rem, counter_of at 1. simpl. unfold has_counter. rewrite W. intros C. left. exists i.
+    unfold counter_of. rewrite R, Ri. unfold has_counter. destruct (iw i); try discriminate; inversion C; subst; auto.
+  - apply Keep; reflexivity.
+  - apply Keep; reflexivity.
+  - apply Keep; reflexivity.
+  - (* strategy *) intros C. destruct (sync_schema_counter s _ _ _ C) as [G|G];
+      [right; split; [exact G|exact Logic.I]|left; exact G].
+  - (* schema *) intros C. destruct (sync_schema_counter s _ _ _ C) as [G|G];
+      [right; split; [exact G|exact Logic.I]|left; exact G].
+  - (* delete *) destruct (present s); [unfold counter_of; simpl; discriminate|apply Keep; reflexivity].
+  - (* enable *) destruct (present s && enable_global (sstr s)); [|apply Keep; reflexivity].
+    destruct (rem s) eqn:R; [apply Keep; auto|]. unfold counter_of, set_rem. simpl. discriminate.
+Qed.
+
+Lemma div1000_mono a b : a <= b -> a / 1000 <= b / 1000.
+Proof. intros H. apply Z.div_le_mono; lia. Qed.
+
+(* the specification's clock follows the state through every event *)
+Lemma ctx_step st maxrt k s e : 0 <= maxrt -> Inv maxrt s -> ev_ok e -> Ctx k s ->
+  Ctx (next_clk k (observe true st s) e (with_sent (observe true st (step true true true st s e)) (sent_in st s e)))
+      (step true true true st s e).
+Proof.
+  intros Hm I Ev (Cn & Cr & Cq & Cc). pose proof I as (I1 & _).
+  destruct (step_proj st s e I1) as (_ & _ & _ & Pn & Pr).
+  unfold Ctx, next_clk. simpl.
+  split; [rewrite Pn, Cn; destruct e; reflexivity|].
+  split; [rewrite Pr, Cr; destruct e; reflexivity|].
+  assert (Hn : k_now k <= match e with EElapse ms => k_now k + (if ms <? 0 then 0 else ms) | _ => k_now k end)
+    by (destruct e; try apply Z.le_refl; destruct (ms <? 0) eqn:E0; lia).
+  split; [destruct (noisy _ _ _); lia|].
+  intros i' C'.
+  assert (Now : now_sec s = k_now k / 1000) by (unfold now_sec; rewrite Cn; reflexivity).
+  destruct (counter_step st maxrt s e i' I Ev C') as [(i & C & E)|(E & St)].
+  - (* the old counter *)
+    rewrite E. specialize (Cc i C). destruct (noisy _ _ _); [|exact Cc].
+    pose proof (div1000_mono (k_quiet k) (k_now k) ltac:(lia)). lia.
+  - (* a counter that starts now: the event is noisy *)
+    assert (N : noisy (observe true st s) e (with_sent (observe true st (step true true true st s e)) (sent_in st s e)) = true).
+    { unfold noisy. destruct e; unfold stamp_cond in St; try contradiction; try reflexivity.
+      - destruct St as [S1 S2]. simpl. rewrite S1, S2. reflexivity.
+      - simpl. assert (HI' : Inv (next_rt maxrt (clk_of s 0) ECfgSync) (step true true true st s ECfgSync)) by (apply step_inv; auto).
+        assert (X : has_counter_obs (with_sent (observe true st (step true true true st s ECfgSync)) (sent_in st s ECfgSync))
+                    = has_counter_obs (observe true st (step true true true st s ECfgSync))) by reflexivity.
+        rewrite X, (has_counter_obs_eq st maxrt s I), (has_counter_obs_eq st _ _ HI'), St, C'. reflexivity. }
+    rewrite N, E, Now. lia.
+Qed.
+
+(* ---------- the reaction clauses: failing / recovery ---------- *)
+Definition robs_of (w : rwrap) (i : inner) : robs :=
+  {| r_inner := Some (iw i); r_lim := Some (il i); r_unavail := iun i; r_over := iover i; r_cfg := rcfg w |}.
+
+(* an error reply (or the watchdog's timeout) applied to the limiter of state s *)
+Lemma err_clause st maxrt s w i i' mx rate rt o' : Inv maxrt s -> rem s = Some w -> rin w = Some i ->
+  set_limit true (scfg s) i (RErr mx rate) rt = Some i' -> o_rem o' = Some (robs_of w i') ->
+  failing_body (scfg s) maxrt (observe true st s) mx rate rt o' = true.
+Proof.
+  intros I R Ri E Ho. pose proof I as (I1 & V & Ip & I2 & I3).
+  unfold failing_body, rem_of, inner_is, rlim_is, rcfg_det, rem_of.
+  destruct (observe_rem_eq st _ _ I) as [-> _]. rewrite Ho.
+  unfold observe_rem. rewrite R, Ri. simpl.
+  rewrite R in I3. unfold wrap_ok in I3. rewrite Ri in I3. destruct I3 as (it & Rc & Hit & Hi). rewrite Rc.
   destruct (iun i) eqn:U; [reflexivity|]. simpl.
   destruct (iw i) eqn:W; simpl; [reflexivity| |].
   - destruct (fresh maxrt rt) eqn:F; [|reflexivity].
     assert (D : exists m, idet it = DMI m).
     { unfold inner_ok in Hi. rewrite W in Hi. destruct Hi as (_ & _ & m & n & D & _). eauto. }
     destruct D as (m & D). rewrite D.
-    destruct (set_limit_mi_err (scfg s) maxrt i it m mx rate rt V Hit Hi W U (not_stale _ _ _ F (ilast_le _ maxrt i it Hi W)) D) as (i' & E & W' & U' & L').
-    subst Q. rewrite (count_step st s w i i' _ rt I1 R Ri E). simpl. rewrite U', L'. simpl. lia.
+    destruct (set_limit_mi_err (scfg s) maxrt i it m mx rate rt V Hit Hi W U (not_stale _ _ _ F (ilast_le _ maxrt i it Hi W)) D) as (j & E' & W' & U' & L').
+    rewrite E in E'. inversion E'; subst j. rewrite U', L'. simpl. lia.
   - assert (D : exists q b, idet it = DTB q b).
     { unfold inner_ok in Hi. rewrite W in Hi. destruct Hi as (_ & _ & _ & q & b & q' & b' & D & _). eauto. }
     destruct D as (q & b & D). rewrite D.
-    destruct (set_limit_tb_err (scfg s) maxrt i it q b mx rate rt V Hit Hi W U D) as (i' & E & W' & U' & L').
-    subst Q. rewrite (count_step st s w i i' _ rt I1 R Ri E). simpl. rewrite U', L'. simpl.
+    destruct (set_limit_tb_err (scfg s) maxrt i it q b mx rate rt V Hit Hi W U D) as (j & E' & W' & U' & L').
+    rewrite E in E'. inversion E'; subst j. rewrite U', L'. simpl.
     apply andb_true_iff. split; lia.
 Qed.
 
-Lemma recovery_holds st maxrt s e : 0 <= maxrt -> ev_ok e -> Inv maxrt s ->
-  recovery_ok (present s) (scfg s) (sstr s) maxrt (observe true st s) e (observe true st (step true true true st s e)) = true.
+Lemma acc_clause st maxrt s w i i' limit rt o' : Inv maxrt s -> rem s = Some w -> rin w = Some i ->
+  set_limit true (scfg s) i (ROk true limit) rt = Some i' -> o_rem o' = Some (robs_of w i') ->
+  recovery_body maxrt (observe true st s) limit rt o' = true.
 Proof.
-  intros Hm Ev I. pose proof (step_inv st maxrt s e Hm Ev I) as I'.
-  unfold recovery_ok, rem_of, inner_is, rlim_is, rcfg_det, rem_of.
-  destruct (observe_rem_eq st _ _ I') as [-> ->].
-  destruct (observe_rem_eq st _ _ I) as [-> _].
-  pose proof I as (I1 & V & Ip & I2 & I3).
-  destruct e as [it0| |[| |[|] limit] rt| | | | | | |]; try reflexivity.
-  - (* a server quota *)
-    destruct (present s) eqn:P; [|reflexivity]. simpl.
-    destruct (global_strategy (sstr s)) eqn:G; [|reflexivity].
-    destruct (strategy_eqb (istr it0) SCount) eqn:S; [reflexivity|]. simpl.
-    destruct (granted (scfg s) (idet it0)) as [l|] eqn:Gr; [|reflexivity].
-    unfold step. rewrite I1, P.
-    replace (enable_global (sstr s)) with true by (rewrite <- G; destruct (sstr s); reflexivity).
-    simpl. unfold apply_sync.
-    assert (Hw : wrap_ok (scfg s) maxrt (match rem s with Some w => w | None => empty_rw end)).
-    { destruct (rem s); [assumption|]. unfold wrap_ok, empty_rw. reflexivity. }
-    destruct (rw_sync_ok (scfg s) (scfg s) maxrt _ it0 V eq_refl Hm Hw) as (w' & E & X). rewrite E.
-    destruct (sanitize (scfg s) it0) as [it|] eqn:Sa; [|rewrite (sanitize_none _ it0 Sa) in Gr; discriminate].
-    destruct (sanitize_ok _ it0 it V Sa) as (Hit & Hs & Hg). rewrite Hg in Gr. inversion Gr; subst l; clear Gr.
-    destruct X as (Hw' & Rc & Rn). unfold observe_rem, set_rem. simpl.
-    unfold wrap_ok in Hw'. destruct (rin w') as [i'|]; [|congruence]. simpl.
-    destruct Hw' as (it' & Rc' & _ & Hi'). rewrite Rc in Rc'. inversion Rc'; subst it'; clear Rc'.
-    unfold inner_ok in Hi'. rewrite Hs in Hi'.
-    destruct (iw i').
-    + destruct Hi' as (_ & L & _). rewrite L. simpl. apply lim_eqb_refl.
-    + destruct Hi' as (X & _). rewrite X in S. discriminate.
-    + destruct Hi' as (X & _). rewrite X in S. discriminate.
-  - (* an accepted global-count reply *)
-    set (Q := observe_rem (step true true true st s (ECount (ROk true limit) rt))).
-    unfold observe_rem. destruct (rem s) as [w|] eqn:R; [|reflexivity].
-    unfold wrap_ok in I3. destruct (rin w) as [i|] eqn:Ri; [|reflexivity]. simpl.
-    destruct I3 as (it & Rc & Hit & Hi). rewrite Rc.
-    destruct (iw i) eqn:W; simpl; [reflexivity| |].
-    + destruct (fresh maxrt rt) eqn:F; [|reflexivity].
-      assert (D : exists m, idet it = DMI m).
-      { unfold inner_ok in Hi. rewrite W in Hi. destruct Hi as (_ & _ & m & n & D & _). eauto. }
-      destruct D as (m & D). rewrite D.
-      destruct (set_limit_mi_accept (scfg s) maxrt i it m limit rt V Hit Hi W (not_stale _ _ _ F (ilast_le _ maxrt i it Hi W)) D) as (i' & E & W' & U' & O' & L').
-      subst Q. rewrite (count_step st s w i i' _ rt I1 R Ri E). simpl. rewrite U', O', L'. simpl. lia.
-    + assert (D : exists q b, idet it = DTB q b).
-      { unfold inner_ok in Hi. rewrite W in Hi. destruct Hi as (_ & _ & _ & q & b & q' & b' & D & _). eauto. }
-      destruct D as (q & b & D). rewrite D.
-      destruct (set_limit_tb_accept (scfg s) maxrt i it q b limit rt V Hit Hi W D) as (i' & E & W' & U' & L').
-      subst Q. rewrite (count_step st s w i i' _ rt I1 R Ri E). simpl. rewrite U', L'. simpl.
-      apply andb_true_iff. split; lia.
+  intros I R Ri E Ho. pose proof I as (I1 & V & Ip & I2 & I3).
+  unfold recovery_body, rem_of, inner_is, rlim_is, rcfg_det, rem_of.
+  destruct (observe_rem_eq st _ _ I) as [-> _]. rewrite Ho.
+  unfold observe_rem. rewrite R, Ri. simpl.
+  rewrite R in I3. unfold wrap_ok in I3. rewrite Ri in I3. destruct I3 as (it & Rc & Hit & Hi). rewrite Rc.
+  destruct (iw i) eqn:W; simpl; [reflexivity| |].
+  - destruct (fresh maxrt rt) eqn:F; [|reflexivity].
+    assert (D : exists m, idet it = DMI m).
+    { unfold inner_ok in Hi. rewrite W in Hi. destruct Hi as (_ & _ & m & n & D & _). eauto. }
+    destruct D as (m & D). rewrite D.
+    destruct (set_limit_mi_accept (scfg s) maxrt i it m limit rt V Hit Hi W (not_stale _ _ _ F (ilast_le _ maxrt i it Hi W)) D) as (j & E' & W' & U' & O' & L').
+    rewrite E in E'. inversion E'; subst j. rewrite U', O', L'. simpl. lia.
+  - assert (D : exists q b, idet it = DTB q b).
+    { unfold inner_ok in Hi. rewrite W in Hi. destruct Hi as (_ & _ & _ & q & b & q' & b' & D & _). eauto. }
+    destruct D as (q & b & D). rewrite D.
+    destruct (set_limit_tb_accept (scfg s) maxrt i it q b limit rt V Hit Hi W D) as (j & E' & W' & U' & L').
+    rewrite E in E'. inversion E'; subst j. rewrite U', L'. simpl.
+    apply andb_true_iff. split; lia.
 Qed.
 
-(* ---------- histories ---------- *)
-Lemma sync_schema_fields s c' x :
-  let s' := sync_schema true true true s c' x in
-  present s' = true \/ (s' = s /\ present s = true /\ c' = scfg s /\ x = sstr s).
+(* no global-count limiter: nothing is required of a reply *)
+Lemma failing_body_nc st maxrt s mx rate rt o' : Inv maxrt s -> counter_of s = None ->
+  failing_body (scfg s) maxrt (observe true st s) mx rate rt o' = true.
 Proof.
-  unfold sync_schema. destruct (present s) eqn:P; simpl; [|left; reflexivity].
-  destruct (kind_eqb (ck c') (ck (scfg s)) && config_eqb c' (scfg s) && strategy_eqb x (sstr s)) eqn:E.
-  - right. apply andb_true_iff in E. destruct E as [E1 E2]. apply config_eqb_eq in E1. apply strategy_eqb_eq in E2. auto.
-  - left. destruct (kind_eqb _ _); simpl; [|reflexivity]. destruct (enable_global x); simpl; [|reflexivity].
-    destruct (rem s) as [w|]; [|reflexivity]. destruct (rin w); [|reflexivity]. destruct (rcfg w); [|reflexivity].
-    destruct (rw_sync _ _ _ _ _); reflexivity.
+  intros I C. unfold failing_body, rem_of, inner_is, rcfg_det.
+  destruct (observe_rem_eq st _ _ I) as [-> _]. unfold observe_rem. unfold counter_of, has_counter in C.
+  destruct (rem s) as [w|]; [|reflexivity]. destruct (rin w) as [i|]; [|reflexivity]. simpl.
+  destruct (iw i); try discriminate. destruct (iun i); reflexivity.
 Qed.
 
-Lemma sync_schema_proj s c' x :
-  let s' := sync_schema true true true s c' x in
-  present s' = true /\ scfg s' = c' /\ sstr s' = x /\ hage s' = hage s.
+Lemma recovery_body_nc st maxrt s limit rt o' : Inv maxrt s -> counter_of s = None ->
+  recovery_body maxrt (observe true st s) limit rt o' = true.
 Proof.
-  unfold sync_schema. destruct (present s) eqn:P; simpl; [|auto].
-  destruct (kind_eqb (ck c') (ck (scfg s)) && config_eqb c' (scfg s) && strategy_eqb x (sstr s)) eqn:E.
-  - apply andb_true_iff in E. destruct E as [E1 E2]. apply config_eqb_eq in E1. apply strategy_eqb_eq in E2. subst. auto.
-  - destruct (kind_eqb _ _); simpl; [|auto]. destruct (enable_global x); simpl; [|auto].
-    destruct (rem s) as [w|]; [|auto]. destruct (rin w); [|auto]. destruct (rcfg w); [|auto].
-    destruct (rw_sync _ _ _ _ _); auto.
+  intros I C. unfold recovery_body, rem_of, inner_is, rcfg_det.
+  destruct (observe_rem_eq st _ _ I) as [-> _]. unfold observe_rem. unfold counter_of, has_counter in C.
+  destruct (rem s) as [w|]; [|reflexivity]. destruct (rin w) as [i|]; [|reflexivity]. simpl.
+  destruct (iw i); try discriminate. reflexivity.
 Qed.
 
-Lemma step_proj st s e : crashed s = false ->
+(* the remote part of the observation after a reply was applied *)
+Lemma with_sent_rem o b : o_rem (with_sent o b) = o_rem o /\ o_evp (with_sent o b) = o_evp o /\ o_sent (with_sent o b) = b.
+Proof. auto. Qed.
+
+Lemma counter_some s w i : rem s = Some w -> rin w = Some i -> has_counter i = true -> counter_of s = Some i.
+Proof. intros R Ri H. unfold counter_of. rewrite R, Ri, H. reflexivity. Qed.
+
+Lemma counter_none_empty s w i : rem s = Some w -> rin w = Some i -> counter_of s = None -> iw i = WEmpty.
+Proof. intros R Ri C. unfold counter_of, has_counter in C. rewrite R, Ri in C. destruct (iw i); auto; discriminate. Qed.
+
+(* what reply, if any, the model applies for an event: the same as the specification derives from the
+   events and from what the limiter server saw *)
+Lemma reply_applied st maxrt k s e r rt : 0 <= maxrt -> ev_ok e -> Inv maxrt s -> Ctx k s ->
   let s' := step true true true st s e in
-  present s' = next_present (present s) e /\ scfg s' = next_cfg (scfg s) e /\ sstr s' = next_str (sstr s) e.
+  let o' := with_sent (observe true st s') (sent_in st s e) in
+  as_reply k e o' = Some (r, rt) ->
+  counter_of s = None \/
+  (exists w i, rem s = Some w /\ rin w = Some i /\
+     (iw i = WEmpty \/
+      exists i', set_limit true (scfg s) i r rt = Some i' /\ o_rem o' = Some (robs_of w i'))).
 Proof.
-  intros Cr. unfold step. rewrite Cr.
-  destruct e as [it| |r rt|ok| |ms|x|k x a b g h| |]; simpl.
-  - destruct (present s && enable_global (sstr s)); [|auto]. unfold apply_sync. destruct (rw_sync _ _ _ _ _); auto.
-  - destruct (present s && strategy_eqb (sstr s) SCount); [|auto]. unfold apply_sync. destruct (rw_sync _ _ _ _ _); auto.
-  - destruct (rem s) as [w|]; [|auto]. destruct (rin w); [|auto]. destruct (set_limit _ _ _ _ _); auto.
-  - auto.
-  - auto.
-  - auto.
-  - destruct (sync_schema_proj s (scfg s) x) as (A & B & C & _). auto.
-  - destruct (sync_schema_proj s {| ck := k; l1 := a; l2 := b; g1 := g; g2 := h |} x) as (A & B & C & _). auto.
-  - destruct (present s) eqn:P; simpl; auto.
-  - destruct (present s && enable_global (sstr s)); [|auto]. destruct (rem s); auto.
+  intros Hm Ev I (Cn & Cr & Cq & Cc) s' o' A. pose proof I as (I1 & V & Ip & I2 & I3).
+  pose proof (step_inv st maxrt s e 0 Hm Ev I) as I'. fold s' in I'.
+  destruct (observe_rem_eq st _ _ I') as [Or _].
+  assert (Orem : o_rem o' = observe_rem s') by (unfold o'; simpl; exact Or).
+  destruct (counter_of s) as [ic|] eqn:C; [right|left; reflexivity].
+  unfold counter_of in C. destruct (rem s) as [w|] eqn:R; [|discriminate].
+  destruct (rin w) as [i|] eqn:Ri; [|discriminate]. destruct (has_counter i) eqn:H; [|discriminate].
+  inversion C; subst ic; clear C. exists w, i. split; [reflexivity|]. split; [reflexivity|]. right.
+  unfold wrap_ok in I3. rewrite Ri in I3. destruct I3 as (it & Rc & Hit & Hi).
+  destruct e as [it0|idle sv mx rate|mx rate| |r0 rt0|ok| |ms|x|kk x a b g h| |]; simpl in A; try discriminate.
+  - (* worker round, delivered *)
+    unfold o' in A. simpl in A.
+    destruct (sent_in st s (EWorker idle sv mx rate)) eqn:Sn; simpl in A; [|discriminate].
+    destruct (is_omit sv) eqn:Om; simpl in A; [discriminate|]. inversion A; subst r rt; clear A.
+    unfold sent_in in Sn. rewrite I1 in Sn. simpl in Sn.
+    destruct (worker_target st s idle) as [[w0 i0]|] eqn:T; [|discriminate].
+    destruct (worker_target_some st s idle w0 i0 T) as (_ & R0 & Ri0 & _).
+    rewrite R in R0. inversion R0; subst w0. rewrite Ri in Ri0. inversion Ri0; subst i0.
+    assert (RT : worker_rt k = request_time s) by (unfold worker_rt, request_time; rewrite Cn, Cr; reflexivity).
+    rewrite RT.
+    destruct (set_limit_ok (scfg s) maxrt i it (reply_of sv mx rate) (request_time s) V Hit Hi) as (i' & E & _).
+    exists i'. split; [exact E|]. rewrite Orem. unfold s', step. rewrite I1, T.
+    destruct sv; try discriminate; rewrite E; reflexivity.
+  - (* watchdog after a silence *)
+    destruct (4 <? k_now k / 1000 - k_quiet k / 1000) eqn:Q; [|discriminate]. inversion A; subst r rt; clear A.
+    pose proof (Cc i (counter_some s w i R Ri H)) as Sy.
+    assert (Fire : has_counter i && (4 <? now_sec s - isync i) = true).
+    { rewrite H. unfold now_sec. rewrite Cn. simpl. lia. }
+    destruct (set_limit_ok (scfg s) maxrt i it (RErr mx rate) 0 V Hit Hi) as (i' & E & _).
+    exists i'. split; [exact E|]. rewrite Orem. unfold s', step. rewrite I1, R, Ri, Fire, E. reflexivity.
+  - (* a reply injected into SetLimit *)
+    inversion A; subst r0 rt0; clear A.
+    destruct (set_limit_ok (scfg s) maxrt i it r rt V Hit Hi) as (i' & E & _).
+    exists i'. split; [exact E|]. rewrite Orem. unfold s', step. rewrite I1, R, Ri, E. reflexivity.
 Qed.
 
-Lemma next_rt_ge maxrt e : maxrt <= next_rt maxrt e.
-Proof. destruct e; simpl; try lia. apply zmax_ge. Qed.
-
-Lemma hist_holds st :
-  forall ops s maxrt, Forall ev_ok ops -> 0 <= maxrt -> Inv maxrt s ->
-  hist_ok st (present s) (scfg s) (sstr s) maxrt (observe true st s) (trace true true true st s ops) = all_true.
+Lemma failing_holds st maxrt k s e : 0 <= maxrt -> ev_ok e -> Inv maxrt s -> Ctx k s ->
+  failing_ok (scfg s) maxrt k (observe true st s) e
+             (with_sent (observe true st (step true true true st s e)) (sent_in st s e)) = true.
 Proof.
-  induction ops as [|e r IH]; intros s maxrt Ev Hm I; [reflexivity|].
-  inversion Ev as [|? ? Ee Er]; subst.
-  simpl. pose proof (step_inv st maxrt s e Hm Ee I) as I'.
-  pose proof (next_rt_ge maxrt e) as Hge.
-  destruct (step_proj st s e ltac:(destruct I as (I1 & _); exact I1)) as (P' & C' & S').
-  rewrite <- P', <- C', <- S'. rewrite (IH _ (next_rt maxrt e) Er ltac:(lia) I').
-  unfold step_ok.
-  rewrite (failing_holds st maxrt s e Hm Ee I), (recovery_holds st maxrt s e Hm Ee I), (nopanic_holds st _ _ I').
-  destruct (present (step true true true st s e)) eqn:P.
-  - rewrite (bound_holds st _ _ I' P), (fallback_holds st _ _ I' P), (inforce_holds st _ _ I' P). reflexivity.
-  - rewrite (absent_holds st _ _ I' P). reflexivity.
+  intros Hm Ev I C. unfold failing_ok.
+  pose proof (step_inv st maxrt s e 0 Hm Ev I) as I'.
+  destruct (observe_rem_eq st _ _ I') as [_ Oe]. simpl o_evp. rewrite Oe.
+  destruct (as_reply k e _) as [[r rt]|] eqn:A; [|reflexivity].
+  destruct r as [mx rate| |]; try reflexivity.
+  destruct (reply_applied st maxrt k s e _ _ Hm Ev I C A) as [N|(w & i & R & Ri & [W|(i' & E & Ho)])].
+  - apply failing_body_nc; assumption.
+  - apply failing_body_nc; [assumption|]. unfold counter_of, has_counter. rewrite R, Ri, W. reflexivity.
+  - eapply err_clause; eauto.
 Qed.
 
-Lemma init_inv c str0 : valid_cfg c -> Inv 0 (init c str0).
-Proof. intros V. unfold Inv, init. simpl. auto. Qed.
-
-Lemma case_holds st str0 ops : valid_cfg (cfg st) -> Forall ev_ok ops ->
-  case_ok st str0 (observe true st (init (cfg st) str0)) (trace true true true st (init (cfg st) str0) ops) = all_true.
+Lemma recovery_holds st maxrt k s e : 0 <= maxrt -> ev_ok e -> Inv maxrt s -> Ctx k s ->
+  recovery_ok (present s) (scfg s) (sstr s) maxrt k (observe true st s) e
+              (with_sent (observe true st (step true true true st s e)) (sent_in st s e)) = true.
 Proof.
-  intros V Ev. unfold case_ok. pose proof (init_inv (cfg st) str0 V) as I.
-  pose proof (hist_holds st ops _ 0 Ev ltac:(lia) I) as H. simpl sstr in H. simpl scfg in H. simpl present in H. rewrite H.
-  unfold obs_ok.
-  pose proof (bound_holds st 0 _ I eq_refl) as B. simpl scfg in B. rewrite B.
-  rewrite (nopanic_holds st 0 _ I).
-  pose proof (fallback_holds st 0 _ I eq_refl) as F. simpl sstr in F. simpl scfg in F. rewrite F.
-  pose proof (inforce_holds st 0 _ I eq_refl) as G. simpl sstr in G. rewrite G.
-  reflexivity.
-Qed.
-
-Lemma run_inv st :
-  forall ops s maxrt, Forall ev_ok ops -> 0 <= maxrt -> Inv maxrt s ->
-  exists m, 0 <= m /\ Inv m (run true true true st s ops).
-Proof.
-  induction ops as [|e r IH]; intros s maxrt Ev Hm I; [exists maxrt; auto|].
-  inversion Ev as [|? ? Ee Er]; subst.
-  simpl. pose proof (next_rt_ge maxrt e). apply (IH _ (next_rt maxrt e)); [assumption|lia|]. apply step_inv; auto.
-Qed.
-
-Lemma reach_inv st str0 ops : valid_cfg (cfg st) -> Forall ev_ok ops ->
-  exists m, 0 <= m /\ Inv m (run true true true st (init (cfg st) str0) ops).
-Proof. intros V Ev. apply (run_inv st ops _ 0 Ev); [lia|apply init_inv; assumption]. Qed.
-
-(* the limiter a request meets is bounded by the schema currently configured, for every reachable state *)
-Lemma enforced_bounded st maxrt s : Inv maxrt s -> present s = true ->
-  exists l, o_lim (observe true st s) = Some l /\ lim_bounded (scfg s) l = true /\
-            (forall n, l = LMI n -> o_adm (observe true st s) <= n).
-Proof.
-  intros I P. pose proof I as (_ & V & _). rewrite (observe_shape st maxrt s I P). simpl.
-  destruct (elig st s) eqn:E.
-  - unfold elig in E. destruct (md st); try discriminate. destruct (cs st); try discriminate.
-    apply andb_true_iff in E. destruct E as [_ E]. unfold has_inner in E.
-    destruct (remote_lim s) as [l|] eqn:R.
-    + exists l. split; [reflexivity|]. split; [eapply remote_bounded; eauto|].
-      intros n ->. apply admitted_le.
-    + unfold remote_lim in R. destruct (rem s) as [w|]; [|discriminate]. destruct (rin w); discriminate.
-  - exists (local_lim (scfg s)). split; [reflexivity|]. split.
-    + rewrite (local_lim_spec _ V). unfold local_spec, lim_bounded, in_range, valid_cfg in *. destruct (ck (scfg s)); lia.
-    + intros n ->. apply admitted_le.
-Qed.
-
-Lemma size_le_global st str0 ops : valid_cfg (cfg st) -> Forall ev_ok ops ->
-  let s := run true true true st (init (cfg st) str0) ops in
-  present s = true -> ck (scfg s) = KMI ->
-  (exists n, o_lim (observe true st s) = Some (LMI n) /\ 0 <= n <= g1 (scfg s) /\ o_adm (observe true st s) <= g1 (scfg s))
-  /\ (forall l, remote_lim s = Some l -> exists n, l = LMI n /\ 0 <= n <= g1 (scfg s)).
-Proof.
-  intros V Ev s P Ks. destruct (reach_inv st str0 ops V Ev) as (m & _ & I). fold s in I. split.
-  - destruct (enforced_bounded st m s I P) as (l & L & B & A).
-    unfold lim_bounded, in_range in B. rewrite Ks in B. destruct l; try discriminate.
-    exists n. split; [assumption|]. specialize (A n eq_refl). lia.
-  - intros l R. pose proof (remote_bounded m s l I R) as B.
-    unfold lim_bounded, in_range in B. rewrite Ks in B. destruct l; try discriminate. exists n. split; [reflexivity|lia].
-Qed.
-
-Lemma tb_le_global st str0 ops : valid_cfg (cfg st) -> Forall ev_ok ops ->
-  let s := run true true true st (init (cfg st) str0) ops in
-  present s = true -> ck (scfg s) = KTB ->
-  (exists q b, o_lim (observe true st s) = Some (LTB q b) /\ 0 <= q <= g1 (scfg s) /\ 0 <= b <= g2 (scfg s))
-  /\ (forall l, remote_lim s = Some l -> exists q b, l = LTB q b /\ 0 <= q <= g1 (scfg s) /\ 0 <= b <= g2 (scfg s)).
-Proof.
-  intros V Ev s P Ks. destruct (reach_inv st str0 ops V Ev) as (m & _ & I). fold s in I. split.
-  - destruct (enforced_bounded st m s I P) as (l & L & B & A).
-    unfold lim_bounded, in_range in B. rewrite Ks in B. destruct l; try discriminate.
-    exists q, b. split; [assumption|]. lia.
-  - intros l R. pose proof (remote_bounded m s l I R) as B.
-    unfold lim_bounded, in_range in B. rewrite Ks in B. destruct l; try discriminate. exists q, b. split; [reflexivity|lia].
-Qed.
-
-(* fallback: any missing condition selects the local limiter with the local limit *)
-Lemma fallback st str0 ops : valid_cfg (cfg st) -> Forall ev_ok ops ->
-  let s := run true true true st (init (cfg st) str0) ops in
-  present s = true ->
-  (md st <> MRemote \/ enable_global (sstr s) = false \/ cs st <> CSOk \/ hready s = false \/ has_inner s = false) ->
-  o_sel (observe true st s) = SelLocal /\ o_lim (observe true st s) = Some (local_spec (scfg s)).
-Proof.
-  intros V Ev s P H. destruct (reach_inv st str0 ops V Ev) as (m & _ & I). fold s in I.
-  pose proof I as (_ & Vs & _).
-  rewrite (observe_shape st m s I P). simpl.
-  assert (E : elig st s = false).
-  { unfold elig. destruct (md st) eqn:M; try reflexivity. destruct (cs st) eqn:Cs; try reflexivity.
-    destruct H as [H|[H|[H|[H|H]]]]; try congruence; rewrite H; simpl; try reflexivity.
-    - destruct (enable_global (sstr s)); reflexivity.
-    - destruct (enable_global (sstr s)); destruct (hready s); reflexivity. }
-  rewrite E, (local_lim_spec _ Vs). auto.
-Qed.
-
-(* a deleted schema name gets the default flow control, a known one never *)
-Lemma default_iff_absent st str0 ops : valid_cfg (cfg st) -> Forall ev_ok ops ->
-  let s := run true true true st (init (cfg st) str0) ops in
-  (o_sel (observe true st s) = SelDefault <-> present s = false).
-Proof.
-  intros V Ev s. destruct (reach_inv st str0 ops V Ev) as (m & _ & I). fold s in I.
-  destruct (present s) eqn:P.
-  - rewrite (observe_shape st m s I P). simpl. destruct (elig st s); split; discriminate.
-  - rewrite (observe_absent st m s I P). simpl. split; reflexivity.
-Qed.
-
-(* readiness hysteresis: failing heartbeats for at least 5 s make the server not ready, for less than 5 s
-   they do not; one good heartbeat or a leader change makes it ready *)
-Lemma hage_step st s e : 0 <= hage s -> 0 <= hage (step true true true st s e).
-Proof.
-  intros H. unfold step. destruct (crashed s); [assumption|].
-  destruct e as [it| |r rt|ok| |ms|x|k x a b g h| |]; simpl.
-  - destruct (present s && enable_global (sstr s)); [|assumption]. unfold apply_sync. destruct (rw_sync _ _ _ _ _); assumption.
-  - destruct (present s && strategy_eqb (sstr s) SCount); [|assumption]. unfold apply_sync. destruct (rw_sync _ _ _ _ _); assumption.
-  - destruct (rem s) as [w|]; [|assumption]. destruct (rin w); [|assumption]. destruct (set_limit _ _ _ _ _); assumption.
-  - unfold heartbeat. simpl. destruct (negb _); lia.
-  - unfold heartbeat. simpl. destruct (negb _); lia.
-  - destruct (ms <? 0) eqn:E; lia.
-  - destruct (sync_schema_proj s (scfg s) x) as (_ & _ & _ & A). rewrite A. assumption.
-  - destruct (sync_schema_proj s {| ck := k; l1 := a; l2 := b; g1 := g; g2 := h |} x) as (_ & _ & _ & A). rewrite A. assumption.
-  - destruct (present s); assumption.
-  - destruct (present s && enable_global (sstr s)); [|assumption]. destruct (rem s); assumption.
-Qed.
-
-Lemma hage_run st ops : forall s, 0 <= hage s -> 0 <= hage (run true true true st s ops).
-Proof. induction ops as [|e r IH]; intros s H; [assumption|]. simpl. apply IH. apply hage_step. assumption. Qed.
-
-Lemma hb_sequence st s ms : crashed s = false -> 0 <= hage s -> 0 <= ms ->
-  let s' := step true true true st (step true true true st (step true true true st s (EHb false)) (EElapse ms)) (EHb false) in
-  (5000 <= ms -> hready s' = false) /\
-  (ms < 5000 -> hlast s = true -> hready s = true -> hready s' = true).
-Proof.
-  intros Cr H Hs.
-  assert (E1 : step true true true st s (EHb false) = heartbeat s false) by (unfold step; rewrite Cr; reflexivity).
-  rewrite E1. unfold step. simpl. rewrite Cr. simpl. unfold heartbeat. simpl.
-  destruct (ms <? 0) eqn:E; [lia|].
-  destruct (hlast s), (hready s); simpl; split; intros; try reflexivity; try discriminate;
-    repeat match goal with |- context [?x <=? ?y] => destruct (x <=? y) eqn:? end; try reflexivity; lia.
-Qed.
-
-Lemma Forall_app_ok ops ops' : Forall ev_ok ops -> Forall ev_ok ops' -> Forall ev_ok (ops ++ ops').
-Proof. intros A B. apply Forall_app. split; assumption. Qed.
-
-Lemma run_app st s ops ops' : run true true true st s (ops ++ ops') = run true true true st (run true true true st s ops) ops'.
-Proof. unfold run. apply fold_left_app. Qed.
-
-Lemma heartbeat_fallback st str0 ops ms : valid_cfg (cfg st) -> Forall ev_ok ops -> 5000 <= ms ->
-  let s := run true true true st (init (cfg st) str0) (ops ++ [EHb false; EElapse ms; EHb false]) in
-  is_ready st s = false /\
-  (present s = true -> o_sel (observe true st s) = SelLocal /\ o_lim (observe true st s) = Some (local_spec (scfg s))).
-Proof.
-  intros V Ev Hs s.
-  assert (R : hready s = false).
-  { subst s. rewrite run_app.
-    destruct (reach_inv st str0 ops V Ev) as (m & _ & (I1 & _)).
-    simpl. apply hb_sequence; auto; [|lia]. apply hage_run. simpl. lia. }
-  split; [unfold is_ready; destruct (cs st); auto|].
-  intros P. apply fallback; auto. apply Forall_app_ok; [assumption|]. repeat constructor.
-Qed.
-
-(* below 5 s of failing heartbeats a ready server stays ready (the hysteresis of setLeaderStatus) *)
-Lemma heartbeat_hysteresis st str0 ops ms : valid_cfg (cfg st) -> Forall ev_ok ops -> 0 <= ms < 5000 ->
-  let s0 := run true true true st (init (cfg st) str0) ops in
-  hlast s0 = true -> hready s0 = true ->
-  hready (run true true true st (init (cfg st) str0) (ops ++ [EHb false; EElapse ms; EHb false])) = true.
-Proof.
-  intros V Ev Hs s0 L R. rewrite run_app. fold s0.
-  destruct (reach_inv st str0 ops V Ev) as (m & _ & (I1 & _)). fold s0 in I1.
-  simpl. apply hb_sequence; auto; try lia. apply hage_run. simpl. lia.
-Qed.
-
-Lemma heartbeat_ready st str0 ops e : valid_cfg (cfg st) -> Forall ev_ok ops -> e = EHb true \/ e = ELeader ->
-  hready (run true true true st (init (cfg st) str0) (ops ++ [e])) = true.
-Proof.
-  intros V Ev He. rewrite run_app.
-  destruct (reach_inv st str0 ops V Ev) as (m & _ & (I1 & _)). simpl.
-  destruct He as [-> | ->]; unfold step; rewrite I1; unfold heartbeat; simpl; destruct (hready _); reflexivity.
-Qed.
-
-(* ---------- reactions, stated on reachable states ---------- *)
-Lemma lim_eqb_eq a b : lim_eqb a b = true -> a = b.
-Proof.
-  destruct a, b; simpl; intros H; try discriminate; try reflexivity.
-  - f_equal. lia.
-  - apply andb_true_iff in H. destruct H. f_equal; lia.
-Qed.
-
-Lemma observe_selected st maxrt s w i : Inv maxrt s -> present s = true ->
-  md st = MRemote -> cs st = CSOk -> hready s = true -> enable_global (sstr s) = true ->
-  rem s = Some w -> rin w = Some i ->
-  o_sel (observe true st s) = SelRemote /\ o_lim (observe true st s) = Some (il i).
-Proof.
-  intros I P M Cs R G Rm Ri. rewrite (observe_shape st maxrt s I P). simpl.
-  assert (E : elig st s = true) by (unfold elig, has_inner; rewrite M, Cs, R, G, Rm, Ri; reflexivity).
-  rewrite E. unfold remote_lim. rewrite Rm, Ri. auto.
-Qed.
-
-Lemma count_state st s w i i' r rt : crashed s = false ->
-  rem s = Some w -> rin w = Some i -> set_limit true (scfg s) i r rt = Some i' ->
-  step true true true st s (ECount r rt) = set_rem s (Some {| rin := Some i'; rcfg := rcfg w |}).
-Proof. intros I1 R Ri E. unfold step. rewrite I1, R, Ri, E. reflexivity. Qed.
-
-Lemma rem_present maxrt s w : Inv maxrt s -> rem s = Some w -> present s = true.
-Proof. intros (_ & _ & Ip & _) R. destruct (present s); [reflexivity|]. rewrite (Ip eq_refl) in R. discriminate. Qed.
-
-(* a global-count error reply on an available wrapper synced from the schema's own global section:
-   the limiter falls back to max(observed, local) within the global limit — never below the local limit *)
-Lemma failing_bounds st str0 ops mx rate rt w i : valid_cfg (cfg st) -> Forall ev_ok ops ->
-  let s := run true true true st (init (cfg st) str0) ops in let c := scfg s in
-  rem s = Some w -> rin w = Some i -> iw i <> WEmpty -> iun i = false ->
-  (0 <? rt) && (rt <=? ilast i) = false ->
-  rcfg w = Some {| idet := global_detail c; istr := SCount |} ->
-  exists i', rem (step true true true st s (ECount (RErr mx rate) rt)) = Some {| rin := Some i'; rcfg := rcfg w |} /\
-             iun i' = true /\
-             match ck c with
-             | KMI => exists n, il i' = LMI n /\ l1 c <= n <= g1 c
-             | KTB => exists q b, il i' = LTB q b /\ l1 c <= q <= g1 c /\ 0 <= b <= g2 c
-             end.
-Proof.
-  intros V Ev s c Rm Ri W U F Rc. destruct (reach_inv st str0 ops V Ev) as (m & _ & I). fold s in I.
-  pose proof I as (I1 & Vs & _ & _ & I3). fold c in Vs. rewrite Rm in I3. unfold wrap_ok in I3. rewrite Ri in I3. fold c in I3.
-  destruct I3 as (it & Rc' & Hit & Hi). rewrite Rc in Rc'. inversion Rc'; subst it; clear Rc'.
-  pose proof Hi as Hi0. unfold inner_ok in Hi0. unfold global_detail in *.
-  destruct (iw i) eqn:Wi; [congruence| |].
-  - destruct Hi0 as (_ & K & _). rewrite K in *.
-    destruct (set_limit_mi_err c m i _ (g1 c) mx rate rt Vs Hit ltac:(rewrite K; exact Hi) Wi U F eq_refl) as (i' & E & _ & U' & L').
-    exists i'. rewrite (count_state st s w i i' _ rt I1 Rm Ri E). simpl.
-    split; [reflexivity|]. split; [assumption|]. eexists. split; [exact L'|].
-    unfold valid_cfg in Vs. rewrite K in Vs. unfold zmin, zmax. zcases; lia.
-  - destruct Hi0 as (_ & K & _). rewrite K in *.
-    destruct (set_limit_tb_err c m i _ (g1 c) (g2 c) mx rate rt Vs Hit ltac:(rewrite K; exact Hi) Wi U eq_refl) as (i' & E & _ & U' & L').
-    exists i'. rewrite (count_state st s w i i' _ rt I1 Rm Ri E). simpl.
-    split; [reflexivity|]. split; [assumption|]. eexists. eexists. split; [exact L'|].
-    unfold valid_cfg in Vs. rewrite K in Vs. unfold zmin, zmax. zcases; lia.
-Qed.
-
-(* a server quota of the schema's type (or carrying both members) becomes the limiter's size, bounded by
-   the global limit, and is what a request meets as soon as the server is ready *)
-Lemma recovery_allocate st str0 ops it l : valid_cfg (cfg st) -> Forall ev_ok ops ->
-  let s := run true true true st (init (cfg st) str0) ops in let c := scfg s in
-  present s = true ->
-  md st = MRemote -> cs st = CSOk -> hready s = true -> enable_global (sstr s) = true ->
-  istr it <> SCount -> granted c (idet it) = Some l ->
-  let s' := step true true true st s (EQuota it) in
-  o_sel (observe true st s') = SelRemote /\ o_lim (observe true st s') = Some l /\ remote_lim s' = Some l.
-Proof.
-  intros V Ev s c P M Cs R G S Gr s'. destruct (reach_inv st str0 ops V Ev) as (m & Hm & I). fold s in I.
-  pose proof (step_inv st m s (EQuota it) Hm Logic.I I) as I'. fold s' in I'. simpl in I'.
-  pose proof (recovery_holds st m s (EQuota it) Hm Logic.I I) as H. fold s' c in H.
-  unfold recovery_ok in H. destruct (observe_rem_eq st _ _ I') as [Er Ep]. rewrite Ep in H.
-  assert (G' : global_strategy (sstr s) = true) by (destruct (sstr s); auto).
-  rewrite P, G' in H.
-  assert (S' : strategy_eqb (istr it) SCount = false).
-  { destruct (strategy_eqb (istr it) SCount) eqn:X; [|reflexivity]. apply strategy_eqb_eq in X. contradiction. }
-  rewrite S', Gr in H. simpl in H. apply andb_true_iff in H. destruct H as [H1 H2].
-  unfold inner_is, rlim_is, rem_of in *. rewrite Er in *. unfold observe_rem in *.
-  destruct (rem s') as [w'|] eqn:Rm'; [|discriminate].
-  destruct (rin w') as [i'|] eqn:Ri'; [|discriminate]. simpl in *.
-  apply lim_eqb_eq in H2.
-  destruct (step_proj st s (EQuota it) ltac:(destruct I as (I1 & _); exact I1)) as (P' & _ & Ss). fold s' in P', Ss. simpl in P', Ss.
-  assert (Hr : hready s' = hready s).
-  { subst s'. unfold step. destruct I as (I1 & _). rewrite I1, P, G. simpl. unfold apply_sync. destruct (rw_sync _ _ _ _ _); reflexivity. }
-  destruct (observe_selected st m s' w' i' I' ltac:(congruence) M Cs ltac:(congruence) ltac:(congruence) Rm' Ri') as [A B].
-  split; [assumption|]. split; [congruence|]. unfold remote_lim. rewrite Rm', Ri'. congruence.
-Qed.
-
-(* an accepted global-count reply that is not stale ends the unavailable state; the granted limit,
-   raised to the burst reserve and bounded by the granted maximum, is the size (token bucket: the
-   configured global rate is restored) and it is what a request meets when the server is ready *)
-Lemma recovery_count st str0 ops limit rt w i it : valid_cfg (cfg st) -> Forall ev_ok ops ->
-  let s := run true true true st (init (cfg st) str0) ops in
-  rem s = Some w -> rin w = Some i -> iw i <> WEmpty -> rcfg w = Some it ->
-  (0 <? rt) && (rt <=? ilast i) = false ->
-  let s' := step true true true st s (ECount (ROk true limit) rt) in
-  exists i', rem s' = Some {| rin := Some i'; rcfg := Some it |} /\ iun i' = false /\
-             match idet it with
-             | DMI m => il i' = LMI (zmin (zmax limit (reserve_of true m)) m)
-             | DTB q b => il i' = LTB q b
-             | _ => False
-             end /\
-             (md st = MRemote -> cs st = CSOk -> hready s = true -> enable_global (sstr s) = true ->
-              o_sel (observe true st s') = SelRemote /\ o_lim (observe true st s') = Some (il i')).
-Proof.
-  intros V Ev s Rm Ri W Rc F s'. destruct (reach_inv st str0 ops V Ev) as (m & Hm & I). fold s in I.
-  pose proof (step_inv st m s (ECount (ROk true limit) rt) Hm Logic.I I) as I'. fold s' in I'.
-  pose proof (rem_present m s w I Rm) as P.
-  pose proof I as (I1 & Vs & _ & _ & I3). rewrite Rm in I3. unfold wrap_ok in I3. rewrite Ri in I3.
-  destruct I3 as (it' & Rc' & Hit & Hi). rewrite Rc in Rc'. inversion Rc'; subst it'; clear Rc'.
-  assert (Sel : forall i', s' = set_rem s (Some {| rin := Some i'; rcfg := rcfg w |}) ->
-                md st = MRemote -> cs st = CSOk -> hready s = true -> enable_global (sstr s) = true ->
-                o_sel (observe true st s') = SelRemote /\ o_lim (observe true st s') = Some (il i')).
-  { intros i' E M Cs R G.
-    apply (observe_selected st _ s' {| rin := Some i'; rcfg := rcfg w |} i' I'); try rewrite E; simpl; auto. }
-  pose proof Hi as Hi0. unfold inner_ok in Hi0.
-  destruct (iw i) eqn:Wi; [congruence| |].
-  - destruct Hi0 as (_ & _ & mm & n & D & _).
-    destruct (set_limit_mi_accept (scfg s) m i it mm limit rt Vs Hit Hi Wi F D) as (i' & E & _ & U' & _ & L').
-    pose proof (count_state st s w i i' _ rt I1 Rm Ri E) as St. fold s' in St.
-    exists i'. split; [rewrite St; simpl; rewrite Rc; reflexivity|]. split; [assumption|].
-    split; [rewrite D; assumption|]. apply Sel; assumption.
-  - destruct Hi0 as (_ & _ & _ & q & b & q' & b' & D & _).
-    destruct (set_limit_tb_accept (scfg s) m i it q b limit rt Vs Hit Hi Wi D) as (i' & E & _ & U' & L').
-    pose proof (count_state st s w i i' _ rt I1 Rm Ri E) as St. fold s' in St.
-    exists i'. split; [rewrite St; simpl; rewrite Rc; reflexivity|]. split; [assumption|].
-    split; [rewrite D; assumption|]. apply Sel; assumption.
-Qed.
-
-(* a schema update — other limits, another strategy, another TYPE, or the name added again — takes effect
-   at once: right after it, the limiter a request meets and the remote limiter are of the new type and
-   within the new limits; no window until the next answer of the limiter server *)
-Lemma schema_update_bounds st str0 ops k x a b g h : valid_cfg (cfg st) -> Forall ev_ok ops ->
-  let c' := {| ck := k; l1 := a; l2 := b; g1 := g; g2 := h |} in
-  valid_cfg c' ->
-  let s' := run true true true st (init (cfg st) str0) (ops ++ [ESchema k x a b g h]) in
-  present s' = true /\ scfg s' = c' /\ sstr s' = x /\
-  (exists l, o_lim (observe true st s') = Some l /\ lim_bounded c' l = true) /\
-  (forall l, remote_lim s' = Some l -> lim_bounded c' l = true).
-Proof.
-  intros V Ev c' V' s'.
-  assert (Ev' : Forall ev_ok (ops ++ [ESchema k x a b g h])).
-  { apply Forall_app_ok; [assumption|]. constructor; [exact V'|constructor]. }
-  destruct (reach_inv st str0 _ V Ev') as (m & _ & I). fold s' in I.
-  assert (C : present s' = true /\ scfg s' = c' /\ sstr s' = x).
-  { subst s'. rewrite run_app. simpl.
-    destruct (reach_inv st str0 ops V Ev) as (m0 & _ & (I1 & _)).
-    destruct (step_proj st _ (ESchema k x a b g h) I1) as (A & B & C). simpl in A, B, C. auto. }
-  destruct C as (P & C & S). repeat split; auto; rewrite <- C.
-  - destruct (enforced_bounded st m s' I P) as (l & L & B & _). exists l. auto.
-  - intros l R. eapply remote_bounded; eauto.
+  intros Hm Ev I C. unfold recovery_ok.
+  pose proof (step_inv st maxrt s e 0 Hm Ev I) as I'.
+  destruct (observe_rem_eq st _ _ I') as [Or Oe]. simpl o_evp. rewrite Oe.
+  pose proof I as (I1 & V & Ip & I2 & I3).
+  assert (Reply : forall limit rt, as_reply k e (with_sent (observe true st (step true true true st s e)) (sent_in st s e)) = Some (ROk true limit, rt) ->
+          recovery_body maxrt (observe true st s) limit rt (with_sent (observe true st (step true true true st s e)) (sent_in st s e)) = true).
+  { intros limit rt A.
+    destruct (reply_applied st maxrt k s e _ _ Hm Ev I C A) as [N|(w & i & R & Ri & [W|(i' & E & Ho)])].
+    - apply recovery_body_nc; assumption.
+    - apply recovery_body_nc; [assumption|]. unfold counter_of, has_counter. rewrite R, Ri, W. reflexivity.
+    - eapply acc_clause; eauto. }
+  destruct e as [it0|idle sv mx rate|mx rate| |r0 rt0|ok| |ms|x|kk x a b g h| |];
+    try (destruct (as_reply _ _ _) as [[[| |[|]] ?]|] eqn:A; try reflexivity; apply Reply; exact A).
+  (* a server quota *)
+  unfold inner_is, rlim_is, rem_of. simpl o_rem. rewrite Or.
+  destruct (present s) eqn:P; [|reflexivity]. simpl.
+  destruct (global_strategy (sstr s)) eqn:G; [|reflexivity].
+  destruct (strategy_eqb (istr it0) SCount) eqn:S; [reflexivity|]. simpl.
+  destruct (granted (scfg s) (idet it0)) as [l|] eqn:Gr; [|reflexivity].
+  unfold step. rewrite I1, P.
+  replace (enable_global (sstr s)) with true by (rewrite <- G; destruct (sstr s); reflexivity).
+  simpl. unfold apply_sync.
+  assert (Hw : wrap_ok (scfg s) maxrt (match rem s with Some w => w | None => empty_rw end)).
+  { destruct (rem s); [assumption|]. unfold wrap_ok, empty_rw. reflexivity. }
+  destruct (rw_sync_ok (scfg s) (scfg s) maxrt (now_sec s) _ it0 V eq_refl Hm Hw) as (w' & E & X). rewrite E.
+  destruct (sanitize (scfg s) it0) as [it|] eqn:Sa; [|rewrite (sanitize_none _ it0 Sa) in Gr; discriminate].
+  destruct (sanitize_ok _ it0 it V Sa) as (Hit & Hs & Hg). rewrite Hg in Gr. inversion Gr; subst l; clear Gr.
+  destruct X as (Hw' & Rc & Rn). unfold observe_rem, set_rem. simpl.
+  unfold wrap_ok in Hw'. destruct (rin w') as [i'|]; [|congruence]. simpl.
+  destruct Hw' as (it' & Rc' & _ & Hi'). rewrite Rc in Rc'. inversion Rc'; subst it'; clear Rc'.
+  unfold inner_ok in Hi'. rewrite Hs in Hi'.
+  destruct (iw i').
+  + destruct Hi' as (_ & L & _). rewrite L. simpl. apply lim_eqb_refl.
+  + destruct Hi' as (X & _). rewrite X in S. discriminate.
+  + destruct Hi' as (X & _). rewrite X in S. discriminate.
 Qed.
